@@ -1,5 +1,6 @@
 """Contracts for strax/processing/general.py (interval primitives, C17 / C07)."""
 
+import z3
 from pyvc.contract import Contract, Loop, REG
 from pyvc.engine import RowsT, ArrT
 
@@ -464,4 +465,80 @@ touching_windows = REG.add(Contract(
         L.sorted_instance(S, lambda i: a.containers.f("time", i), a.containers.n)],
     call_names=("touching_windows", "strax.touching_windows"),
     returns=ArrT("int", dims=2),
+))
+
+
+# --------------------------------------------------------------------------------------
+# _get_empty_container_ids (helper of split_by_containment): the ids in [0, n) that are not in the sorted list of full ids
+# --------------------------------------------------------------------------------------
+def _gec_lo(S, f, q):
+    """first id after full id q-1 (0 for q = 0)"""
+    if S.symbolic:
+        return z3.If(q == 0, z3.IntVal(0), f.at(q - 1) + 1)
+    return 0 if int(q) == 0 else int(f.at(int(q) - 1)) + 1
+
+
+def _gec_hi(S, f, q, m, n):
+    if S.symbolic:
+        return z3.If(q == m, n, f.at(q))
+    return int(n) if int(q) == int(m) else int(f.at(int(q)))
+
+
+def _gec_placed(S, res, f, m, n, gaps, below):
+    """the ids of the first ``gaps`` gaps between full ids (gap q = the ids between full id q-1 and full id q; gap m runs up to n)
+    sit at position id - q (q full ids lie before them), all below ``below``.  Stated over the position p = id - q."""
+    if not S.symbolic:
+        ok = True
+        for q in range(int(gaps)):
+            for i in range(_gec_lo(S, f, q), _gec_hi(S, f, q, m, n)):
+                ok = ok and 0 <= i - q < int(below) and int(res.at(i - q)) == i
+        return ok
+    q, p_ = z3.Int("gec_q"), z3.Int("gec_p")
+    body = z3.Implies(z3.And(0 <= q, q < gaps, _gec_lo(S, f, q) - q <= p_, p_ < _gec_hi(S, f, q, m, n) - q),
+                      z3.And(0 <= p_, p_ < below, res.at(p_) == p_ + q))
+    return z3.ForAll([q, p_], body)
+
+
+def _gec_clean(S, res, f, upto_pos, n_full_seen, bound):
+    """what is stored so far: ids below ``bound`` that are none of the full ids seen so far, in increasing order"""
+    return S.And(S.forall(0, upto_pos, lambda j: S.And(0 <= res.at(j), res.at(j) < bound,
+                                                        S.forall(0, n_full_seen, lambda k: res.at(j) != f.at(k)))),
+                 S.forall(0, upto_pos - 1, lambda j: res.at(j) < res.at(j + 1)))
+
+
+def _gec_requires(S, a):
+    f, n = a.full_container_ids, a.n_containers
+    return [("the full ids are container numbers, strictly increasing",
+             S.And(n >= 0, S.forall(0, f.n, lambda k: S.And(0 <= f.at(k), f.at(k) < n)),
+                   S.forall(0, f.n - 1, lambda k: f.at(k) < f.at(k + 1))))]
+
+
+def _gec_inv(S, a):
+    f, n, k = a.full_container_ids, a.n_containers, a.k_
+    m = f.n
+    return [("prev_fid is one past the last full id seen", a.prev_fid == _gec_lo(S, f, k)),
+            ("n_empty counts the ids below prev_fid that are not full", S.And(a.n_empty == a.prev_fid - k, a.n_empty >= 0, a.res.n == n)),
+            ("the ids of the gaps passed are in place", _gec_placed(S, a.res, f, m, n, k, a.n_empty)),
+            ("nothing else was stored", _gec_clean(S, a.res, f, a.n_empty, k, a.prev_fid))]
+
+
+def _gec_lemmas(S, a):
+    f = a.full_container_ids
+    return [L.sorted_instance(S, lambda i: f.at(i), f.n)]
+
+
+get_empty_container_ids = REG.add(Contract(
+    F, "_get_empty_container_ids",
+    params=dict(n_containers="int", full_container_ids=ArrT("int")),
+    requires=_gec_requires,
+    ensures=lambda S, a, r: [
+        ("as many ids as there are containers that are not full", r.n == a.n_containers - a.full_container_ids.n),
+        ("every container number that is not a full id is in the result, at the position of its rank among them",
+         _gec_placed(S, r, a.full_container_ids, a.full_container_ids.n, a.n_containers, a.full_container_ids.n + 1, r.n)),
+        ("the result holds container numbers that are not full ids, in increasing order",
+         _gec_clean(S, r, a.full_container_ids, r.n, a.full_container_ids.n, a.n_containers))],
+    raises={},
+    loops={1: Loop(_gec_inv)},
+    lemma_facts=_gec_lemmas,
+    call_names=("_get_empty_container_ids",),
 ))
